@@ -477,6 +477,21 @@ func traceFS(o opts) error {
 					}
 				}
 			}
+			if strings.HasPrefix(op, "cache") {
+				// the restarted program goes on: its next cache write is a shorter document (a secret
+				// expired); whatever the killed write left lying around, the file must then be
+				// exactly that document
+				short := []byte(`{"a":{"secret":{"Value":"eA==","Version":1},"lastAccess":"0"}}`)
+				fc := setec.FileCache(filepath.Join(dir, "state", "cache.json"))
+				followup = "ok"
+				if err := fc.Write(short); err != nil {
+					followup = "WRITEERR"
+				} else if got, err := os.ReadFile(filepath.Join(dir, "state", "cache.json")); err != nil || !bytes.Equal(got, short) {
+					followup = "UNREADABLE:" + hb(got)
+				} else if got, err := fc.Read(); err != nil || !bytes.Equal(got, short) {
+					followup = "UNREADABLE:read:" + hb(got)
+				}
+			}
 			emit("crash\top=%s\tidx=%d\tcall=%s\tafter=%d\tdisk=%s\ttmpleft=%d\tpre=%s\tpost=%s\tfollowup=%s", op, t.idx, t.canon, after, diskAfterKill, left, pre, post, followup)
 		}
 		os.RemoveAll(dir)
